@@ -64,7 +64,8 @@ func primitiveProcessor[T p.ZogPrimitive](ctx *p.SchemaCtx, tests []Test, postTr
 			for _, fn := range postTransforms {
 				err := fn(destPtr, ctx)
 				if err != nil {
-					ctx.AddIssue(ctx.IssueFromUnknownError(err))
+					// Catch covers required, coercion and test failures, not PostTransform errors: always report them
+					ctx.ExecCtx.AddIssue(ctx.IssueFromUnknownError(err))
 					return
 				}
 			}
@@ -129,7 +130,8 @@ func primitiveValidator[T p.ZogPrimitive](ctx *p.SchemaCtx, tests []Test, postTr
 			for _, fn := range postTransforms {
 				err := fn(valPtr, ctx)
 				if err != nil {
-					ctx.AddIssue(ctx.IssueFromUnknownError(err))
+					// Catch covers required, coercion and test failures, not PostTransform errors: always report them
+					ctx.ExecCtx.AddIssue(ctx.IssueFromUnknownError(err))
 					return
 				}
 			}
